@@ -292,8 +292,26 @@ def check(ctx):
         r2.check(len(got) == 1 and got[0][2] and re.search(want, got[0][0]), 'default dispatch: %s -> %s' % (kind, want.strip('^$\\')), mt.rel, gd.lineno, 'for a %s the default is taken from %s' % (kind, [g[0] for g in got]),
                  detail=[g[0] for g in got])
 
+    # toggling the direction: the default is recomputed AFTER direction and caller-allocates have their new values
+    SCM = gsa.summarise(ctx, MT, 'MainTransformer._apply_annotations_param_ret_common', opaque=('_is_pointer_type', '_get_validate_parameter_name', '_resolve_toplevel', '_resolve', '_get_transfer_default',
+                                                                                                 '_apply_transfer_annotation', '_adjust_container_type'))
+    nn_ = re.escape(SCM.P(2))
+    recompute = [e for e in gsa.find(SCM, 'store', r'^%s\.transfer$' % nn_, r'^self\._get_transfer_default\(')]
+    inputs = [e for e in gsa.find(SCM, 'store', r'^%s\.(direction|caller_allocates)$' % nn_) if any(gsa.compatible(e, x) for x in recompute)]
+    r2.check(bool(recompute) and len(inputs) >= 2 and all(e.seq < x.seq for e in inputs for x in recompute if gsa.compatible(e, x)), 'toggled direction: default recomputed after direction and caller-allocates are stored',
+             mt.rel, recompute[0].line if recompute else SCM.func.lineno,
+             'the default transfer is recomputed before %s get their new values: an (out caller-allocates) parameter is given the default of the previous direction/allocation'
+             % sorted(set(e.target for e in inputs for x in recompute if e.seq > x.seq)))
+
     # ------------------------------------------------------------------ R3 callable roles
     r3 = ctx.rule('R3', 'throws, callback closure/destroy/scope roles, untyped pointers nullable', floor=8)
+    P3 = gsa.summarise(ctx, MT, 'MainTransformer._pass3', inline_only=())
+    p3n = P3.P(1)
+    for hn in ('_pass3_callable_callbacks', '_pass3_callable_throws'):
+        hc = [e for e in P3.effects if e.kind == 'call' and e.target == 'self.' + hn]
+        r3.check(len(hc) >= 1 and gsa.equiv(gsa.cond_any(hc), gsa.atom('isinstance(%s, ast.Callable)' % p3n)) and all(e.args[:1] == [p3n] for e in hc), '%s runs for every callable' % hn, mt.rel,
+                 hc[0].line if hc else P3.func.lineno, '%s is applied when %s: some callables (e.g. the compatibility copy of a moved function) keep their GError** parameter / lose their callback roles'
+                 % (hn, [e.when()[:160] for e in hc]))
     th = py.func(MT, 'MainTransformer._pass3_callable_throws')
     TH = gsa.summarise(ctx, MT, 'MainTransformer._pass3_callable_throws')
     nd = re.escape(th.args.args[1].arg)
